@@ -3,9 +3,12 @@
 // dropped, f64 -> R64 per R6) and the *views* the contracts are stated over:
 //   value, gradient per variable NAME (0 for names not carried), half-Hessian per NAME pair.
 // ---------------------------------------------------------------------------------------------
+pub mod dualview_m {
+use vstd::prelude::*;
 use std::sync::Arc;
-
-broadcast use {group_r64, group_coll};
+use super::r64_shim::*;
+use super::coll_shim::*;
+use super::nd_shim::*;
 
 pub struct Dual {
     pub real: R64,
@@ -98,6 +101,7 @@ pub proof fn lemma_index_of_unique(names: Seq<String>, i: int)
     requires names.no_duplicates(), 0 <= i < names.len(),
     ensures names.contains(names[i]), names.index_of(names[i]) == i,
 {
+    broadcast use {group_r64, group_coll};
     let j = names.index_of(names[i]);
     assert(names.contains(names[i]));
 }
@@ -106,6 +110,7 @@ pub proof fn lemma_grad_at_index(names: Seq<String>, vals: Seq<R64>, i: int)
     requires names.no_duplicates(), 0 <= i < names.len(),
     ensures grad_at(names, vals, names[i]) == vals[i]@,
 {
+    broadcast use {group_r64, group_coll};
     lemma_index_of_unique(names, i);
 }
 
@@ -119,6 +124,7 @@ pub proof fn lemma_seq_union_props(a: Seq<String>, b: Seq<String>)
         forall|i: int| 0 <= i < a.len() ==> #[trigger] seq_union(a, b)[i] == a[i],
     decreases b.len(),
 {
+    broadcast use {group_r64, group_coll};
     if b.len() > 0 {
         let bl = b.drop_last();
         lemma_seq_union_props(a, bl);
@@ -154,6 +160,7 @@ pub proof fn lemma_dedup_nodup(s: Seq<String>)
     ensures dedup(s) =~= s,
     decreases s.len(),
 {
+    broadcast use {group_r64, group_coll};
     if s.len() > 0 {
         let d = s.drop_last();
         assert(d.no_duplicates());
@@ -171,6 +178,7 @@ pub proof fn lemma_dedup_props(s: Seq<String>)
         forall|x: String| #[trigger] dedup(s).contains(x) <==> s.contains(x),
     decreases s.len(),
 {
+    broadcast use {group_r64, group_coll};
     if s.len() > 0 {
         let sl = s.drop_last();
         lemma_dedup_props(sl);
@@ -205,6 +213,7 @@ pub proof fn lemma_grad_at_all(names: Seq<String>, vals: Seq<R64>)
     requires names.no_duplicates(),
     ensures forall|i: int| 0 <= i < names.len() ==> #[trigger] grad_at(names, vals, names[i]) == vals[i]@,
 {
+    broadcast use {group_r64, group_coll};
     assert forall|i: int| 0 <= i < names.len() implies #[trigger] grad_at(names, vals, names[i]) == vals[i]@ by {
         lemma_grad_at_index(names, vals, i);
     }
@@ -258,3 +267,33 @@ pub proof fn lemma_new_vars_hess(names: Seq<String>, m: Array2<R64>, target: Seq
         }
     }
 }
+
+/// unfolding of grad_at / hess_at together with the range facts of `index_of` (broadcast in the operator units)
+pub broadcast proof fn lemma_grad_at_unfold(names: Seq<String>, vals: Seq<R64>, n: String)
+    ensures
+        #[trigger] grad_at(names, vals, n) == (if names.contains(n) { vals[names.index_of(n)]@ } else { 0real }),
+        names.contains(n) ==> 0 <= names.index_of(n) < names.len() && names[names.index_of(n)] == n,
+{
+    if names.contains(n) {
+        let j = choose|j: int| 0 <= j < names.len() && names[j] == n;
+    }
+}
+
+pub broadcast proof fn lemma_hess_at_unfold(names: Seq<String>, m: Array2<R64>, n: String, k: String)
+    ensures
+        #[trigger] hess_at(names, m, n, k) == (if names.contains(n) && names.contains(k) { m.at(names.index_of(n), names.index_of(k))@ } else { 0real }),
+        names.contains(n) ==> 0 <= names.index_of(n) < names.len() && names[names.index_of(n)] == n,
+        names.contains(k) ==> 0 <= names.index_of(k) < names.len() && names[names.index_of(k)] == k,
+{
+    if names.contains(n) { let j = choose|j: int| 0 <= j < names.len() && names[j] == n; }
+    if names.contains(k) { let j = choose|j: int| 0 <= j < names.len() && names[j] == k; }
+}
+
+pub broadcast group group_view_unfold {
+    lemma_grad_at_unfold,
+    lemma_hess_at_unfold,
+}
+
+} // mod dualview_m
+pub use dualview_m::*;
+use std::sync::Arc;
